@@ -205,8 +205,14 @@ var verTables = [][]string{
 	{"", "1.2.3-alpha", "1.2.3-beta.2", "1.2.3", "1.10.0"},
 }
 
+// Every third concretisation carries build metadata on each version: metadata takes no part in precedence, so the
+// model's order of versions is unchanged, but the version strings written to and read from the manifest must keep it.
 func (g bGamma) ver(i int) versions.Version {
-	return versions.MustParseVersion(verTables[int(g.seed)%len(verTables)][i])
+	s := verTables[int(g.seed)%len(verTables)][i]
+	if g.seed%3 == 1 && s != "" {
+		s += fmt.Sprintf("+build.%d", i)
+	}
+	return versions.MustParseVersion(s)
 }
 
 func (g bGamma) verBack(v versions.Version) int {
@@ -482,6 +488,10 @@ func (e *bEnv) ModulePackageVersions(ctx context.Context, p regaddr.ModulePackag
 					info.Deprecation = &sourcebundle.ModulePackageVersionDeprecation{Reason: fmt.Sprintf("deprecated-%s-%d", r, x.V), Link: "https://example.com/why"}
 				}
 				ret.Versions = append(ret.Versions, info)
+			}
+			// every third concretisation lists its first version twice: the set of offered versions is the same
+			if e.g.seed%3 == 2 && len(ret.Versions) >= 2 {
+				ret.Versions = append(ret.Versions, ret.Versions[0])
 			}
 			return ret, nil
 		}
